@@ -6,8 +6,8 @@ import GcArena.Model.Metrics
   List-level view of the `all` list: `all = pre ++ rest`, where `rest` is what the sweep cursor
   still has to visit (`sweep`), `pre` is everything in front of it (objects kept by this sweep and
   objects allocated during it); `sweep_prev = pre.getLast?` while sweeping.  Outside `Phase::Sweep`
-  `rest = []`.  (The pointer-level `next`-field surgery is modelled separately in `Model/Ptr.lean`
-  and related to this view by a refinement theorem.)
+  `rest = []`.  (The pointer-level `next`-field surgery is modelled separately in `Model/PtrList.lean`
+  and related to this view by the refinement theorems of `Proofs/PtrRefine.lean`.)
 
   Collector events (`dropped i`: destructor of object `i` ran; `freed i`: block of `i` returned to
   the allocator) are appended to `log`, newest first — a monotone history.
